@@ -130,10 +130,18 @@ def make_monitor(refs):
             bad("%s:%s" % (key, base if key.startswith("ubsan") else meta.get("kind")), "sanitizer report under fault:\n" + txt[:1200])
         if ck and not sf:
             bad("crash:%s:%s" % (ck, meta.get("kind")), "child died: %s" % scn.stderr[-400:])
-        if not scn.clean:
+        ref = refs.get(base)
+        # ledger after "fault cleared, Reset" (recorded before the process exits, so also available when LeakSanitizer
+        # later turns the exit status non-zero)
+        led0 = scn.ledgers[-1][1] if scn.ledgers else None
+        if ref is not None and led0 is not None and meta.get("kind") != "ref" and ref.get("ledger") is not None:
+            rep.count("ledger_comparisons")
+            if led0[:2] != ref["ledger"][:2]:
+                bad("leak-after-fault:%s" % meta.get("kind"), "after fault cleared + Reset: %d allocations / %d bytes live, fault-free run: %d / %d"
+                    % (led0[0], led0[1], ref["ledger"][0], ref["ledger"][1]))
+        if scn.status != "exit" or (scn.code != 0 and not any(k.startswith("lsan:") for k, _ in sf)):
             return
         req = section(scn, "request", meta["nreq"])
-        ref = refs.get(base)
         mtu = meta["mtu"]
         # the response under fault
         sent = [e[3] for i in req for e in i.sends()]
@@ -160,15 +168,11 @@ def make_monitor(refs):
                 rep.nontrivial((base, meta.get("fault")))
         elif meta.get("kind") == "getter":
             rep.nontrivial((base, meta.get("fault")))
-        # ledger after "fault cleared, Reset"
-        led = scn.ledgers[-1][1] if scn.ledgers else None
-        if ref is not None and led is not None and meta.get("kind") != "ref":
-            if led[:2] != ref["ledger"][:2]:
-                bad("leak-after-fault:%s" % meta.get("kind"), "after fault cleared + Reset: %d allocations / %d bytes live, fault-free run: %d / %d"
-                    % (led[0], led[1], ref["ledger"][0], ref["ledger"][1]))
         # continuation equals a fresh instance's
         n = len(CONT) + 1
         tp, tq = trace(section(scn, "contP", n)), trace(section(scn, "contQ", n))
+        if len(tp) == n and len(tq) == n:
+            rep.count("continuations_compared")
         if tp != tq:
             j = next((k for k in range(min(len(tp), len(tq))) if tp[k] != tq[k]), -1)
             bad("not-fresh-after-fault-and-reset:%s" % meta.get("kind"), "continuation input %d differs from a fresh instance" % j)
@@ -315,4 +319,6 @@ def run(ctx):
     rep.need("runs:send", c.get("runs:send", 0), 30)
     rep.need("runs:getter", c.get("runs:getter", 0), 500)
     rep.need("runs:ctor", c.get("runs:ctor", 0), 24)
+    rep.need("ledger_comparisons", c.get("ledger_comparisons", 0), 500)
+    rep.need("continuations_compared", c.get("continuations_compared", 0), 500)
     rep.sample(dict(corpus=[x["name"] for x in corp], example_fault="emit-3: FAULT malloc 2 (once) before the Emit, CLEAR, Reset, LEDGER, continuation on P and on fresh Q"))
